@@ -283,6 +283,12 @@ def run(model: RepoModel, rep, tier: str):
     rep.rule("C12.R7", "re-ordering independent top-level class definitions changes nothing: the bases of a class are visited in the order of "
                        "its class statement, never in the order of the class ids", 1)
     check_base_order(model, rep, "C12.R7")
+    from .. import generic4, gir
+    rep.rule("C12.R8", "moving a function into a sibling module of a package keeps it resolvable: " + "a relative import is searched in the right package: n leading dots climb n-1 packages above the importing file's own package (dot counter, guarded level assignment and the range of the climbing loop evaluated for 1..5 dots)", 1)
+    generic4.check_relative_import_levels(model, rep, "C12.R8")
+    rep.rule("C12.R9", "a comment inserted between the elements of a list/array literal changes no element index: a loop that numbers the children "
+                       "with enumerate() does not skip children inside the counted loop", 4)
+    generic4.check_skip_counted_indices(model, rep, "C12.R9", [m_.rel for lg_, m_ in gir.frontend_modules(model, gir.SEVEN)], min_sites=4)
 
 
 def _r1b_reader_keeps_lines(model: RepoModel, rep):
